@@ -47,6 +47,7 @@ class C16(Engine):
     prop = "C16"
     title = "naken_asm never crashes, hangs or corrupts memory"
     quick_budget = 45
+    quick_runs = 5000
     thorough_budget = 1200
     rule = ("run i = one forked naken_asm lifetime (real main(), ASan+UBSan) on a seeded SimFs workspace: corpus-based "
             "program for a seeded CPU wrapped in macros/.if/.repeat/.include/.binfile, plus 1-3 stressors drawn from "
@@ -212,7 +213,7 @@ class C16(Engine):
         elif kind == "addr":
             base = rng.pick([0, 0xffff, 0x10000, 0x7fffffff, 0x80000000, 0xfffffff0, 0xffffff, 0x1000000])
             body = rng.pick([".db 1,2,3", ".dw 0x1234", ".dc32 1", '.ascii "abc"', ".resb 4\n.db 1"])
-            files[main] = ".%s\n.org 0x%x\n%s\n" % (cpu, base, body)
+            files[main] = ".%s\n.org 0x%x\n%s\n" % (cpu, base // progs.cpu_info(cpu)["bpa"], body)
             if rng.chance(1, 2):
                 plan["argv"] = ["-type", rng.pick(["hex", "srec", "elf", "bin", "wdc", "uf2", "amiga", "macho"]), "-o", "out.x", "a.asm"]
             if rng.chance(1, 3):
@@ -388,6 +389,14 @@ class C16(Engine):
         res.absorb(o)
         res.digest = o.digest()
         ck = crash_key(o, tag)
+        if ck is not None and o.kind() == "sanitizer" and re.search(rb"/core/(imports_\w+|Linker)\.cpp", o.stderr):
+            # one finding: the .o/.a import code trusts every offset, size and count in the file
+            ck = "crash:linker-import-parser-trusts-offsets-in-o-a-files"
+        if ck is not None and ck.startswith("hang:") and ("Pass 2..." in o.text() or "bailing out" in o.text()
+                                                         or "addr-top" in plan["stressors"]):
+            # assembly itself finished: the run is stuck in the byte-wise low..high walk of the
+            # listing / output writers (never ends when high_address is 0xffffffff, minutes for GiB spans)
+            ck = "hang:after-pass-2:byte-wise-walk-of-the-address-span"
         if ck is not None:
             res.viol(ck, how=o.kind(), stderr=o.stderr.decode("latin-1")[:1500], tail=o.text()[-300:],
                      ring=[(SEAMS[s] if s < len(SEAMS) else s, a) for s, a in o.ring][-6:])
@@ -398,7 +407,7 @@ class C16(Engine):
         elif st == 1:
             body = [l for l in o.text().split("\n")
                     if l.strip() and not l.startswith("** Errors") and not l.startswith("*** Failed")]
-            if not any(DIAG.search(l) for l in body[8:]) and not any(DIAG.search(l) for l in body):
+            if not any(DIAG.search(l) for l in o.text().split("\n")[8:]):
                 res.viol("no-diagnostic:%s" % tag, tail=o.text()[-400:])
             res.probe("rejected_with_diagnostic")
         else:
